@@ -67,7 +67,7 @@ def pick_histories(hs, rnd, n):
     while len(chosen) < n and hs:
         best = max(hs, key=lambda h: len(feats(h) - covered))
         if not feats(best) - covered and len(chosen) >= 6:
-            break
+            best = hs[0]                     # everything covered: fill up with (seeded) random histories
         chosen.append(best)
         covered |= feats(best)
         hs.remove(best)
